@@ -25,6 +25,10 @@ type Ctx struct {
 	R     *report.Run
 	Tier  string
 	Depth int // inlining depth of the slicer
+
+	taintCache    *Taint
+	readConeCache map[*ssa.Function]bool
+	depCache      *depInfo
 }
 
 func (c *Ctx) Pos(p token.Pos) string { return c.P.Pos(p) }
